@@ -12,6 +12,14 @@ from mc import oracles
 from mc.core import Acc, Hang, horizon
 
 EPS = 1e-6
+
+
+def eps_for(items):
+    """Absolute slack for float error: 1e-6 plus a few ulps of the coordinate magnitude."""
+    mag = max((abs(n.currentPos) for n in items), default=0)
+    return EPS + 4e-16 * mag * (len(items) + 2)
+
+
 POS13 = [x / 2 for x in range(13)]
 
 CONFIGS = [
@@ -53,6 +61,27 @@ def letters(tier, variant=0):
     raise ValueError(variant)
 
 
+NEAR_TIES = [0.1 + 0.2, 0.3, 0.1 * 7, 1 - 0.3, 3.0, 3.0000000000000004, 2.9999999999999996, 1.5]
+NEAR_CONFIGS = [{}, {"algorithm": "none"}, {"maxPos": 6, "minPos": 1, "algorithm": "none"}, {"maxPos": 10},
+                {"maxPos": 9, "algorithm": "simple"}, {"minPos": None, "algorithm": "none", "nodeSpacing": 0}]
+BIG_BASES = (1.0e9, 1.7e12)
+
+
+def near_tie_letters():
+    """Distinct targets a few ulps apart (what a linear scale produces: 0.1+0.2 vs 0.3)."""
+    return [(p, w) for p in NEAR_TIES for w in (4, 1)]
+
+
+def big_letters(base):
+    """The small grid moved to epoch-seconds / epoch-milliseconds magnitudes."""
+    return [(base + p, w) for p in POS13[::2] for w in (1, 4)]
+
+
+def big_configs(base):
+    return [{}, {"minPos": None}, {"minPos": base - 2, "maxPos": base + 10}, {"minPos": base + 1, "maxPos": base + 7, "algorithm": "none"},
+            {"minPos": None, "maxPos": base + 8, "nodeSpacing": 1.5}]
+
+
 def seeded_letters(seed):
     """Seed-selected extra alphabet, enumerated exhaustively at n <= 3."""
     offs = [0.25, 10, -3, 100.5, 17, -0.75, 1000, 33.5][seed % 8]
@@ -62,18 +91,20 @@ def seeded_letters(seed):
 
 def dependent_config(name, labels, spacing=3):
     req = sum(w for _, w in labels) + spacing * (len(labels) - 1)
+    lo = 1 + (min(p for p, _ in labels) // 1000) * 1000  # bounds stay near the data (walls are soft, see soft_wall_distance)
     if name == "fit-exact":
-        hi = 1 + req
+        hi = lo + req
     elif name == "fit-short1":
-        hi = 1 + req - 1
+        hi = lo + req - 1
     else:
-        hi = 1 + req / 3.0
-    return {"minPos": 1, "maxPos": hi, "algorithm": "none", "nodeSpacing": spacing}
+        hi = lo + req / 3.0
+    return {"minPos": lo, "maxPos": hi, "algorithm": "none", "nodeSpacing": spacing}
 
 
-def config_for(ci, labels, nconf):
+def config_for(ci, labels, nconf, menu=None):
+    menu = CONFIGS if menu is None else menu
     if ci < nconf:
-        return dict(CONFIGS[ci])
+        return dict(menu[ci])
     return dependent_config(DEPENDENT[ci - nconf], labels)
 
 
@@ -134,6 +165,7 @@ def check_c01_layer(items, ns):
     """All-pairs separation/order invariant on one layer. -> (key, reason)|None"""
     items = ordered(items)
     m = len(items)
+    EPS = eps_for(items)
     g = gaps_of(items, ns)
     pre = [0.0]
     for x in g:
@@ -207,7 +239,7 @@ def check_c02_layer(items, ns, lo, hi, info):
         if not ok:  # another tie order may change adjacency and so the need
             continue
         worst = max(abs(F(n.currentPos) - xi) for n, xi in zip(order, x))
-        if worst <= F(1, 2) + F(1, 10 ** 6):
+        if worst <= F(1, 2) + F(eps_for(items)):
             if any(xi != F(ti) for xi, ti in zip(x, t)):
                 info["c02_optimum_differs_from_targets"] += 1
                 info["nontrivial"] = True
@@ -231,6 +263,7 @@ def check_c03_layer(items, ns, lo, hi, info):
     fits, req, avail = layer_fit(items, ns, lo, hi)
     left = min(n.currentLeft() for n in items)
     right = max(n.currentRight() for n in items)
+    EPS = eps_for(items)
     if fits:
         info["c03_layers_fit"] += 1
         if avail is not None and req == avail:
@@ -298,6 +331,19 @@ def check_c04_engine(force, nodes, info):
     return None
 
 
+def soft_wall_distance(items, lo, hi):
+    """Total distance of the targets from the bounded interval.  The bounds are solver variables of weight 1e10,
+    not hard constraints: they yield by about this distance / 1e10 (known finding C03 far-target)."""
+    d = 0.0
+    for n in items:
+        t = target(n)
+        if lo is not None and t < lo:
+            d += lo - t
+        if hi is not None and t > hi:
+            d += t - hi
+    return d
+
+
 # ------------------------------------------------------------------ exploring
 def evaluate(prop, labels, opts, info):
     """Run one case and apply the oracle of `prop`.  -> (key, reason) | None"""
@@ -333,6 +379,10 @@ def evaluate(prop, labels, opts, info):
             bad = check_c03_layer(items, ns, lo, hi, info)
         else:
             bad = None
+        if bad and prop in ("C02", "C03") and soft_wall_distance(items, lo, hi) >= 1e8 and bad[0] in (
+                "C02:not-least-squares", "C03:lower-bound", "C03:upper-bound"):
+            return ("%s:soft-wall-far-target" % prop, bad[1] + " [targets lie %.3g units outside the bounds]"
+                    % soft_wall_distance(items, lo, hi))
         if bad:
             return bad
     if prop == "C04":
@@ -354,10 +404,14 @@ def plan_layout(tier, seed, nshards=64):
         parts.append({"alpha": "v0", "nmax": 5, "nconf": 25})
         parts.append({"alpha": "v1", "nmax": 4, "nconf": 11})
     parts.append({"alpha": "seed", "nmax": 3, "nconf": 11, "seed": seed})
-    shards = []
+    parts.append({"alpha": "near", "nmax": 3 if tier == "quick" else 4, "nconf": len(NEAR_CONFIGS)})
+    for base in BIG_BASES:
+        parts.append({"alpha": "big", "base": base, "nmax": 3 if tier == "quick" else 4, "nconf": 5})
+    shards = [{"kind": "probe"}]
     for p in parts:
-        for r in range(nshards):
-            shards.append({"kind": "multisets", "part": p, "mod": nshards, "rem": r})
+        ns = nshards if p["alpha"] in ("v0", "v1") else 8
+        for r in range(ns):
+            shards.append({"kind": "multisets", "part": p, "mod": ns, "rem": r})
     if tier == "thorough":
         for n0 in range(1, 201, 4):
             shards.append({"kind": "sweep", "ns": list(range(n0, min(201, n0 + 4)))})
@@ -375,10 +429,22 @@ def part_alpha(p):
         return letters("q", 0)
     if p["alpha"] == "v1":
         return letters("t", 1)
+    if p["alpha"] == "near":
+        return near_tie_letters()
+    if p["alpha"] == "big":
+        return big_letters(p["base"])
     return seeded_letters(p["seed"])
 
 
-PART_ORDER = {"v0": 0, "v1": 1, "seed": 2}
+def part_menu(p):
+    if p["alpha"] == "near":
+        return NEAR_CONFIGS
+    if p["alpha"] == "big":
+        return big_configs(p["base"])
+    return CONFIGS
+
+
+PART_ORDER = {"v0": 0, "v1": 1, "seed": 2, "near": 3, "big": 4}
 SWEEP_WIDTHS = {"all4": lambda i: 4, "alt1-7": lambda i: 1 if i % 2 == 0 else 7, "w2.5": lambda i: 2.5}
 SWEEP_CONFIGS = [{}, {"minPos": None}, {"maxPos": 300}, "fit-exact"]
 SWEEP_BIG = {"maxPos": 300, "algorithm": "simple"}  # the overlap distributor is cubic in the cluster size: minutes at n=200
@@ -415,11 +481,25 @@ def sweep_cases(ns_list, configs=None, pitches=None):
                     yield {"labels": labels, "opts": opts, "family": [n, wname, pitch, ci]}
 
 
+PROBE = {"labels": [(5.0e9, 4), (5.0e9 + 2, 4)], "opts": {"minPos": 0, "maxPos": 100}}
+
+
 def run_layout_shard(prop, shard):
     acc = Acc()
+    if shard["kind"] == "probe":
+        # known finding: bounds are soft (weight-1e10 variables); a target 5e9 units outside them pushes them by ~0.5
+        info = _Info(acc)
+        bad = evaluate(prop, PROBE["labels"], PROBE["opts"], info)
+        acc.evals += 1
+        acc.states += 1
+        acc.trans += 1
+        if bad:
+            acc.violation(PROBE, bad[0], bad[1], order=(9, 0, 0, 0))
+        return acc
     if shard["kind"] == "multisets":
         p = shard["part"]
         alpha = part_alpha(p)
+        menu = part_menu(p)
         nconf = p["nconf"]
         for idx, ms in enumerate(multisets(alpha, p["nmax"])):
             if idx % shard["mod"] != shard["rem"]:
@@ -428,7 +508,7 @@ def run_layout_shard(prop, shard):
             acc.states += 1
             any_nt = False
             for ci in range(nconf + len(DEPENDENT)):
-                opts = config_for(ci, labels, nconf)
+                opts = config_for(ci, labels, nconf, menu)
                 info = _Info(acc)
                 bad = evaluate(prop, labels, opts, info)
                 acc.evals += 1
@@ -496,6 +576,7 @@ def bounds(tier, seed):
         "max_labels": 4 if tier == "quick" else 5,
         "configs": (11 if tier == "quick" else 25) + len(DEPENDENT),
         "seeded_slice": {"seed": seed, "letters": seeded_letters(seed)[:4], "nmax": 3},
+        "near_tie_targets": NEAR_TIES, "big_magnitudes": list(BIG_BASES),
         "sweep": "n=1..200 x 6 pitches x 3 width patterns x 4 configs" if tier == "thorough" else
                  "clusters n=5..16 x 3 widths x 3 pitches x 2 bases x 4 tight-bound configs (>=3 layers); n in {50,100,200} x 2 pitches x 3 configs",
     }
